@@ -9,7 +9,7 @@ from harness.points import canon
 from harness.translate import translator_obligations
 
 MODULE = 'Ndt.Props.C05'
-THEOREMS = ['Ndt.imaginary_only_rule_selected', 'Ndt.dCentral_depends', 'Ndt.dCentralEven_depends', 'Ndt.dForward_depends', 'Ndt.dBackward_depends', 'Ndt.dComplex_depends',
+THEOREMS = ['Ndt.difference_functions_generated', 'Ndt.imaginary_only_rule_selected', 'Ndt.dCentral_depends', 'Ndt.dCentralEven_depends', 'Ndt.dForward_depends', 'Ndt.dBackward_depends', 'Ndt.dComplex_depends',
             'Ndt.scalar_onesided', 'Ndt.scalar_central_symmetric', 'Ndt.scalar_imaginary_only', 'Ndt.scalar_near',
             'Ndt.jacobian_one_coordinate', 'Ndt.hessdiag_one_coordinate', 'Ndt.hessdiag_real_points', 'Ndt.mem_pairs',
             'Ndt.hessian_two_coordinates', 'Ndt.hessian_forward_onesided', 'Ndt.hessian_backward_onesided']
@@ -41,7 +41,7 @@ def run(ctx):
     import numdifftools as nd
     from numdifftools.step_generators import MinStepGenerator, MaxStepGenerator
     translator_obligations(ctx, ['LogRule._get_middle_name', 'LogRule._get_last_name', 'LogRule._multicomplex_middle_name',
-                                 'LogRule.eval_first_condition', 'LogRule._complex_high_order'])
+                                 'LogRule.eval_first_condition', 'LogRule._complex_high_order', 'DiffFuns.'])
     lean_obligations(ctx, MODULE, THEOREMS)
     rng = ctx.rng
     eng = ctx.engine('points')
